@@ -345,8 +345,9 @@ pub enum CHead {
     Item(Vec<String>, Vec<syn::Type>),
     /// bare single identifier (a generic parameter such as `_0`, or an undefined name)
     Ident(String),
-    /// anything else: substitute targets and unknown paths
-    Other(String),
+    /// anything else: substitute targets and unknown paths (with the type arguments written
+    /// anywhere in the path)
+    Other(String, Vec<syn::Type>),
     /// not a syntactically acceptable type form
     Bad(String),
 }
@@ -369,6 +370,21 @@ fn path_key(p: &syn::Path) -> Vec<String> {
 
 fn str_key(s: &str) -> Vec<String> {
     path_key(&crate::sdesc::p(s))
+}
+
+/// every type argument written in any segment of a path
+pub fn all_type_args(p: &syn::Path) -> Vec<syn::Type> {
+    let mut out = Vec::new();
+    for seg in &p.segments {
+        if let syn::PathArguments::AngleBracketed(a) = &seg.arguments {
+            for g in &a.args {
+                if let syn::GenericArgument::Type(t) = g {
+                    out.push(t.clone());
+                }
+            }
+        }
+    }
+    out
 }
 
 pub fn last_args(p: &syn::Path) -> Result<Vec<syn::Type>, String> {
@@ -447,7 +463,13 @@ impl Classifier {
                 let key = path_key(p);
                 let args = match last_args(p) {
                     Ok(a) => a,
-                    Err(e) => return CHead::Bad(e),
+                    Err(e) => {
+                        // only foreign (substitute target) paths may carry arguments elsewhere
+                        if p.leading_colon.is_some() || p.segments.first().map(|s| s.ident == "crate").unwrap_or(false) {
+                            return CHead::Other(nows(&ts(tp)), all_type_args(p));
+                        }
+                        return CHead::Bad(e);
+                    }
                 };
                 let k: Vec<&str> = key.iter().map(|s| s.as_str()).collect();
                 // ::core::primitive::X
@@ -512,7 +534,7 @@ impl Classifier {
                 if p.leading_colon.is_none() && key.len() == 1 && args.is_empty() {
                     return CHead::Ident(key[0].clone());
                 }
-                CHead::Other(nows(&ts(tp)))
+                CHead::Other(nows(&ts(tp)), all_type_args(p))
             }
             other => CHead::Bad(format!("unexpected type form {}", ts(other))),
         }
